@@ -446,6 +446,19 @@ func c03Random(r *Run, n int) []map[string]interface{} {
 			ops = append(ops, map[string]interface{}{"op": "delE", "g": g, "id": Pick(rnd, eids)})
 		}
 	}
+	// one history in three re-creates a graph under its old name and writes (some of) the same
+	// elements again: whatever a store keeps about a dropped graph must not leak into the new one
+	if n >= 4 && rnd.Intn(3) == 0 {
+		p := 2 + rnd.Intn(len(ops)-2)
+		g := Pick(rnd, gs)
+		again := []map[string]interface{}{{"op": "delGraph", "g": g}, {"op": "addGraph", "g": g}}
+		for _, op := range ops[:p] {
+			if op["g"] == g && (op["op"] == "addV" || op["op"] == "addE" || op["op"] == "bulk") && rnd.Intn(3) > 0 {
+				again = append(again, op)
+			}
+		}
+		ops = append(append(append([]map[string]interface{}{}, ops[:p]...), again...), ops[p:]...)
+	}
 	return ops
 }
 
